@@ -50,6 +50,14 @@ def expected_rows(n):
     return [r if n % 2 else r[:1] for r in rows_for(n)]
 
 
+def rows_for_any():
+    """Every row any statement of the alphabet can deliver (both projections)."""
+    out = []
+    for i in range(16):
+        out += [(i, 's%d' % i), (i,)]
+    return out
+
+
 def expected_desc(n):
     return [('x', int), ('s', str)] if n % 2 else [('x', int)]
 
@@ -234,6 +242,18 @@ class OneCursor:
                 if not newpos:
                     raise Desync('iter', f'{ev} yielded {got!r}; expected the not-yet-fetched rows from one of positions {sorted(m.pos)}')
                 m.pos = frozenset(newpos)
+        elif kind == 'iterhold':
+            # an iterator obtained now and advanced LATER, with fetch calls in between
+            self.held = iter(cur)
+        elif kind == 'iterheld':
+            held = getattr(self, 'held', None)
+            if held is not None:
+                try:
+                    got = tuple(next(held))
+                except StopIteration:
+                    got = None
+                except Exception as e:
+                    raise Desync('iter-held', f'advancing an iterator obtained earlier raised {type(e).__name__}: {e} (only StopIteration ends an iteration)')
         else:
             raise AssertionError(ev)
         self.observe(out)
@@ -391,6 +411,8 @@ def _tup(e):
 
 
 def replay(case):
+    if case.get('kind') == 'held':
+        return check_held_iterators(only=case['history'])[0]
     mode = case['mode']
     sizes = case['sizes']
     hist = [_tup(h) for h in case['history']]
@@ -413,6 +435,28 @@ def _search(args):
     if mode == 'one':
         return bfs(lambda: Product1(sizes), events, max_states=cap, stop_after_violations=300)
     return bfs(lambda: Product2(sizes, second_before), events, max_states=cap, stop_after_violations=300)
+
+
+def check_held_iterators(only=None):
+    """An iterator obtained from the cursor and advanced LATER, with fetch calls (and a new execute) in between: every
+    history of <= 5 events; the only requirement is that nothing but StopIteration ends the iteration (the fetch results
+    themselves stay under the model).  The iterator state is not part of the BFS state, hence this separate sweep."""
+    evs = [('exec', 3), ('one',), ('many', 2), ('all',), ('iterhold',), ('iterheld',)]
+    out, n = [], 0
+    for d in range(2, 6):
+        for hist in itertools.product(evs, repeat=d):
+            if hist[0][0] != 'exec' or ('iterhold',) not in hist or hist[-1] != ('iterheld',):
+                continue
+            if only is not None and list(map(list, hist)) != only:
+                continue
+            n += 1
+            c = OneCursor(make_conn([3]))
+            try:
+                for ev in hist:
+                    c.apply(ev)
+            except Desync as e:
+                out.append(Violation(e.fingerprint, f'history {list(hist)!r}: {e.message}', {'kind': 'held', 'history': [list(x) for x in hist]}))
+    return out, n
 
 
 def run(ctx):
@@ -474,6 +518,9 @@ def run(ctx):
         'samples': [[list(e) for e in h] for h in st1.sample_histories[:4]] + [[list(e) for e in h] for h in st2s[0].sample_histories[:2]],
         'bound': 'closure of the reachable product state space: histories of any length over the alphabet' if closed else 'state cap hit',
     }
+    held_violations, held_n = check_held_iterators()
+    violations += held_violations
+    cov['held_iterator_histories'] = held_n
     return Result(cov, violations, assumptions=[
         'iteration may or may not consume rows (property is silent); fetchmany(k<=0) and fetching while an iterator is live are outside',
         'canonical state drops only the cursor->connection back-reference',
